@@ -249,3 +249,30 @@ pub fn gen_maps(rng: &mut Rng, np: usize) -> Node {
     }
     acc
 }
+
+/// C13 at the stream size limit: n*m `ap`s into one stream in a single run (no service round trips), with the
+/// product drawn around STREAM_MAX_SIZE; then the stream is canonicalized and its length handed to a probe.
+/// Optionally the appends come from two peers (the second batch arrives by merge).
+pub fn gen_c13_limit(rng: &mut Rng, np: usize) -> Node {
+    let var = |n: &str| Arg::Var { name: n.to_string(), lens: vec![] };
+    let pairs: &[(usize, usize)] = &[(31, 33), (32, 32), (33, 31), (1, 1023), (1, 1024), (1023, 1), (2, 511), (2, 512), (3, 341), (3, 342), (30, 34), (29, 35), (16, 64), (64, 16), (20, 50)];
+    let (n, m) = pairs[rng.below(pairs.len())];
+    let p = rng.below(np);
+    let q = rng.below(np);
+    let r = rng.below(np);
+    let inner = Node::Fold {
+        iterable: var("b"),
+        it: "j".into(),
+        body: Box::new(Node::seq(Node::Ap { src: var("j"), dst: "$big".into() }, Node::Next("j".into()))),
+        last: None,
+    };
+    let outer = Node::Fold { iterable: var("a"), it: "i".into(), body: Box::new(Node::seq(inner, Node::Next("i".into()))), last: None };
+    let tail = Node::seq(
+        Node::Canon { peer: PeerRef::Lit(r), src: "$big".into(), dst: "#cb".into() },
+        call(r, "len1".into(), vec![Arg::Length { name: "#cb".into() }], Out::None),
+    );
+    Node::seq(
+        call(p, format!("big{n}"), vec![], Out::Scalar("a".into())),
+        Node::seq(call(q, format!("bigb{m}"), vec![], Out::Scalar("b".into())), Node::seq(outer, tail)),
+    )
+}
